@@ -90,6 +90,62 @@ def gen_cfg(rng, it):
     return cfg
 
 
+def decision_oracle(cfg, r):
+    """every true positive passes the decision threshold (direction-aware, equality passes)"""
+    bad = []
+    if cfg.get("dmetric") is not None and cfg["dmetric"] in r["metrics"]:
+        decr = cfg["dmetric"] in ("ASSD", "RVD")
+        for v in r["metrics"][cfg["dmetric"]]["all"]:
+            if (v > cfg["dthr"]) if decr else (v < cfg["dthr"]):
+                bad.append(f"an instance with {cfg['dmetric']}={v} is counted as true positive although the decision threshold is {cfg['dthr']}")
+    return bad
+
+
+def grouped_cases(ctx):
+    """the identities and the decision filter hold for EVERY group of a grouped evaluation, whatever the order and kind of the
+    other groups (a single-instance group is exempt from decision filtering by design, the groups around it are not)"""
+    from panoptica.utils.segmentation_class import SegmentationClassGroups
+    from panoptica.utils.label_group import LabelGroup, LabelMergeGroup
+    rng = ctx.rng
+    for _ in range(ctx.scale(40, 400)):
+        it = rng.choice(["unmatched", "semantic"])
+        shape = (rng.randint(6, 9), rng.randint(10, 16))
+        ref = np.zeros(shape, np.uint8); pred = np.zeros(shape, np.uint8)
+        ref[0:2, 0:4] = 1; pred[0:2, 0:rng.randint(2, 5)] = 1                 # the single-instance structure (label 1)
+        x = 0
+        for lab in (2, 3, 4):                                                # lesion-like instances with imperfect predictions
+            w = rng.randint(2, 4)
+            ref[3:6, x:x + w] = lab
+            pred[3 + rng.randint(0, 1):6, x + rng.randint(0, 1):x + w] = lab
+            x += w + 1
+        ref[-1, 0:3] = 5; pred[-1, 0:rng.randint(1, 3)] = 5                  # a merge-group label
+        kinds = [("organ", LabelGroup([1], single_instance=True), "single"), ("lesion", LabelGroup([2, 3, 4]), "plain"),
+                 ("region", LabelMergeGroup([5]), "merge")]
+        rng.shuffle(kinds)
+        dm = rng.choice(["IOU", "DSC", "ASSD"])
+        cfg = {"input": it, "imetrics": ["IOU", "DSC", "ASSD"], "gmetrics": [], "matcher": "naive", "mmetric": "IOU", "mthr": rng.choice([0.1, 0.3, 0.5]),
+               "dmetric": dm, "dthr": rng.choice([0.7, 0.85, 1.0]) if dm != "ASSD" else rng.choice([0.0, 0.2, 0.4])}
+        if it == "semantic":
+            cfg["backend"] = None
+        spec = [[n, k] for n, _, k in kinds]
+        ev = impl.make_evaluator({**cfg, "groups": SegmentationClassGroups({n: g for n, g, _ in kinds})})
+        for call in range(2):                                                # the second call on the same evaluator must obey them too
+            out = impl.evaluate(ev, pred.copy(), ref.copy())
+            case = {"cfg": cfg, "group_order": spec, "pred": pred, "ref": ref, "call": call + 1}
+            ctx.count({"grouped": spec, "cfg": cfg, "pred": pred.tolist(), "ref": ref.tolist(), "call": call}, True)
+            ctx.bump(f"grouped/{it}/dm={dm}")
+            if isinstance(out, tuple):
+                ctx.violation("grouped evaluation raised " + str(out[1:]), {**case, "observed": out})
+                break
+            for n, _, k in kinds:
+                r = impl.canon_result(out[n][0])
+                bad = pipeline.bookkeeping(r)
+                if k != "single":
+                    bad += decision_oracle(cfg, r)
+                if bad:
+                    ctx.violation(f"group {n} ({k}) of a grouped evaluation: " + "; ".join(bad[:3]), {**case, "group": n, "observed": r})
+
+
 def run(ctx):
     common.serial_pool()
     rng = ctx.rng
@@ -109,13 +165,19 @@ def run(ctx):
             if it == "unmatched":
                 c.update({"matcher": "naive", "mmetric": "IOU", "mthr": 0.3})
             cases.append((c, p, r))
+    grouped_cases(ctx)
     for _ in range(ctx.scale(200, 2500)):
         it = rng.choice(["matched", "unmatched", "unmatched", "semantic"])
         p, r = impl.rand_pair(rng, max_side=6, max_inst=4)
         if it == "semantic":
             p, r = (p != 0).astype("uint8") * rng.choice([1, 2]), (r != 0).astype("uint8")
         cases.append((gen_cfg(rng, it), p, r))
-    for cfg, pred, ref in cases:
+    followups = 0
+    max_followups = ctx.scale(120, 1200)
+    qi = 0
+    while qi < len(cases):
+        cfg, pred, ref = cases[qi]
+        qi += 1
         out = impl.evaluate(impl.make_evaluator(cfg), pred.copy(), ref.copy())
         case = {"cfg": cfg, "pred": pred, "ref": ref}
         if isinstance(out, tuple):
@@ -129,13 +191,24 @@ def run(ctx):
         ctx.bump(f"{cfg['input']}/{cfg.get('matcher', '-')}/dm={cfg.get('dmetric')}")
         bad = pipeline.bookkeeping(r)
         # every true positive passes the decision threshold (direction-aware, equality passes) ...
-        if cfg.get("dmetric") is not None and cfg["dmetric"] in r["metrics"]:
-            decr = cfg["dmetric"] in ("ASSD", "RVD")
-            for v in r["metrics"][cfg["dmetric"]]["all"]:
-                if (v > cfg["dthr"]) if decr else (v < cfg["dthr"]):
-                    bad.append(f"an instance with {cfg['dmetric']}={v} is counted as true positive although the decision threshold is {cfg['dthr']}")
+        bad += decision_oracle(cfg, r)
         if bad:
             ctx.violation("result bookkeeping is inconsistent: " + "; ".join(bad[:3]), {**case, "observed": r})
+        # follow-up: the same pair with a decision threshold a hair on the failing side of an achieved score
+        # (next float, relative 2e-6, absolute 5e-9) and exactly at it
+        if followups < max_followups and not cfg.get("followup") and r.get("tp", 0) >= 1 and rng.random() < 0.5:
+            ms = [m for m in cfg["imetrics"] if m in ("IOU", "DSC", "ASSD") and r["metrics"].get(m, {}).get("all")]
+            if ms:
+                dm = rng.choice(ms)
+                v = rng.choice(r["metrics"][dm]["all"])
+                decr = dm == "ASSD"
+                sign = -1.0 if decr else 1.0
+                for dthr in (float(np.nextafter(v, v + sign)), v * (1 + sign * 2e-6), v + sign * 5e-9, v):
+                    if dthr < 0 or (not decr and dthr > 1.0 + 1e-5):
+                        continue
+                    c2 = dict(cfg); c2["dmetric"] = dm; c2["dthr"] = dthr; c2["followup"] = True
+                    cases.append((c2, pred, ref))
+                    followups += 1
         try:
             ip, ir = (pred, ref) if cfg["input"] != "semantic" else pipeline.approximate(pred, ref, cfg.get("backend"))
             mr = pipeline.model_result(cfg, ip, ir)
@@ -163,12 +236,29 @@ def replay(path):
         print("direct result case:", d)
         return 1
     pred, ref = common.arr_from_json(d["pred"]), common.arr_from_json(d["ref"])
+    if "group_order" in d:
+        from panoptica.utils.segmentation_class import SegmentationClassGroups
+        from panoptica.utils.label_group import LabelGroup, LabelMergeGroup
+        mk = {"single": lambda: LabelGroup([1], single_instance=True), "plain": lambda: LabelGroup([2, 3, 4]), "merge": lambda: LabelMergeGroup([5])}
+        ev = impl.make_evaluator({**d["cfg"], "groups": SegmentationClassGroups({n: mk[k]() for n, k in d["group_order"]})})
+        rc = 0
+        for call in range(d.get("call", 1)):
+            out = impl.evaluate(ev, pred.copy(), ref.copy())
+            if isinstance(out, tuple):
+                print("implementation raised:", out)
+                return 1
+            for n, k in d["group_order"]:
+                r = impl.canon_result(out[n][0])
+                bad = pipeline.bookkeeping(r) + (decision_oracle(d["cfg"], r) if k != "single" else [])
+                print(f"call {call + 1} group {n} ({k}): tp={r['tp']} fp={r['fp']} fn={r['fn']} violations: {bad}")
+                rc |= bool(bad)
+        return rc
     out = impl.evaluate(impl.make_evaluator(d["cfg"]), pred, ref)
     if isinstance(out, tuple):
         print("implementation raised:", out)
         return 1
     r = impl.canon_result(out["ungrouped"][0])
     print("implementation:", common.jsonable(r))
-    bad = pipeline.bookkeeping(r)
-    print("bookkeeping violations:", bad)
+    bad = pipeline.bookkeeping(r) + decision_oracle(d["cfg"], r)
+    print("violations:", bad)
     return 1 if bad else 0
